@@ -113,7 +113,7 @@ def parse_items(toks, src, container=""):
         name = None
         if kw == "impl":
             hdr = plain[i + 1:body_open]
-            name = "".join(hdr)
+            name = "".join("@for@" if h == "for" else h for h in hdr)
         elif kw in ("fn", "struct", "enum", "const", "static", "type", "mod", "trait", "union"):
             name = plain[i + 1]
         it = Item(kw, name, container, toks[s:end + 1], toks[item_start][1], toks[end][2], attrs, src)
